@@ -26,7 +26,7 @@ META = {
                    'workloads (create, repeated set_data, add_metadata, save / abort) with tape-chosen pauses, the real flusher loop runs as a task on '
                    'the virtual clock, the wrapped in-memory cassette is slow and fails where the tape says.  Schedules: every single line-level '
                    'pre-emption placement per workload (<= 1 pre-emption, exhaustive per sampled workload), every single placement of a failing '
-                   'wrapped operation, and seeded random pre-emption beyond.  A second workload drives the wrapper through real TapeRecorder operations.'),
+                   'wrapped operation, and seeded random pre-emption beyond.  A second workload drives the wrapper through real TapeRecorder operations. Operations of one recording issued by two threads in turn; more than 1000 operations pending at close.'),
     'level_note': 'Trusted: baton scheduler and simulated Lock/Event/Thread semantics (simkit/sim.py), spy recording side table. Assumes total storage delay below timeout_on_close and that values handed to the cassette are not mutated afterwards.',
     'rule': ('evaluation = one workload under one schedule / fault placement; non-trivial = at least one context switch happened inside the async cassette '
              'module or a wrapped operation failed or was slow; distinct = distinct event-log digest; distinct_schedules = distinct context-switch sequences.'),
